@@ -45,8 +45,9 @@ VARIABLES l,        \* next line to consume
           issued,   \* issued[w]: identifiers ever issued in the lineage of world w
           tok,      \* ledger: live individually identified values <<name, token>>
           cnt,      \* ledger: number of live Z and B values
-          twin      \* twin[w]: world that must behave identically to w (0: none)
-vars == <<l, issued, tok, cnt, twin>>
+          twin,     \* twin[w]: world that must behave identically to w (0: none)
+          heap      \* blocks allocated inside library calls and not yet released: <<id, size, align>>
+vars == <<l, issued, tok, cnt, twin, heap>>
 
 Chk(prop, name, cond) == IF cond THEN TRUE ELSE PrintT(<<"FAIL", prop, l, name, Rec[l].op>>)
 
@@ -103,6 +104,31 @@ LedgerChecks ==
   /\ Chk("C04", "leak-or-premature-drop(Z)", CntNext["Z"] = CntOf(PostWs, "Z"))
   /\ Chk("C04", "leak-or-premature-drop(B)", CntNext["B"] = CntOf(PostWs, "B"))
   /\ Chk("C05", "corrupt-value-at-drop", \A k \in DOMAIN E.led : E.led[k].k # "bad")
+
+-----------------------------------------------------------------------------
+(* Allocation protocol (C05).  E.heap lists, in order, the allocator calls made inside library    *)
+(* calls and every later call on a block allocated inside a library call; `st`, `ks`, `ka` are   *)
+(* what the recorder's book says about the block (live / dead / unknown, size and alignment it   *)
+(* was allocated with).                                                                           *)
+HeapEvs == IF "heap" \in DOMAIN E THEN E.heap ELSE <<>>
+HAllocs == {<<HeapEvs[k].id, HeapEvs[k].s, HeapEvs[k].al>> : k \in {k \in DOMAIN HeapEvs : HeapEvs[k].k = "alloc"}}
+           \cup {<<HeapEvs[k].nid, HeapEvs[k].ns, HeapEvs[k].al>> :
+                    k \in {k \in DOMAIN HeapEvs : HeapEvs[k].k = "realloc" /\ HeapEvs[k].nid > 0}}
+HFreed == {HeapEvs[k].id : k \in {k \in DOMAIN HeapEvs : HeapEvs[k].k \in {"dealloc", "realloc"} /\ HeapEvs[k].id > 0}}
+HeapNext == {b \in heap \cup HAllocs : b[1] \notin HFreed}
+HeapChecks ==
+  /\ Chk("C05", "free-of-dead-or-unknown-block",
+         \A k \in DOMAIN HeapEvs : HeapEvs[k].k \in {"dealloc", "realloc"} => HeapEvs[k].st = "live")
+  /\ Chk("C05", "free-or-resize-layout-mismatch",
+         \A k \in DOMAIN HeapEvs : (HeapEvs[k].k \in {"dealloc", "realloc"} /\ HeapEvs[k].st = "live") =>
+             (HeapEvs[k].s = HeapEvs[k].ks /\ HeapEvs[k].al = HeapEvs[k].ka))
+  /\ Chk("C05", "free-of-untraced-library-block",
+         \A k \in DOMAIN HeapEvs : (HeapEvs[k].k \in {"dealloc", "realloc"} /\ HeapEvs[k].id > 0 /\ HeapEvs[k].st = "live") =>
+             \E b \in heap \cup HAllocs : b[1] = HeapEvs[k].id /\ b[2] = HeapEvs[k].ks)
+  /\ Chk("C05", "block-allocated-twice", Cardinality({b[1] : b \in HAllocs}) = Cardinality(HAllocs)
+                                          /\ {b[1] : b \in HAllocs} \cap {b[1] : b \in heap} = {})
+  /\ Chk("C05", "memory-not-returned-at-world-drop",
+         E.op = "reset" => HeapNext = {})
 
 -----------------------------------------------------------------------------
 (* Checks evaluated on every live world after every event                    *)
@@ -374,7 +400,7 @@ OpQueryIter ==
   /\ Chk(QP, "writes-through-views",
          Post = [id \in DOMAIN Pre |-> IF id \in M THEN Written(d.views, Pre[id], E.v) ELSE Pre[id]])
   /\ Chk("C03", "size_hint",
-         d.kind = "par" \/
+         d.kind = "par" \/ ("st" \in DOMAIN E /\ E.st # 0) \/
          (/\ Len(hs) = n + 1
           /\ \A k \in DOMAIN hs : /\ hs[k][1] <= n - (k - 1)
                                   /\ (hs[k][2] = -1 \/ n - (k - 1) <= hs[k][2])))
@@ -478,14 +504,14 @@ OpPanicked ==
 CrashStep ==
   /\ Chk("C01", "operation-crashed:" \o E.was, FALSE)
   /\ Chk("C05", "process-crashed-in-safe-call:" \o E.was, FALSE)
-  /\ UNCHANGED <<issued, tok, cnt, twin>>
+  /\ UNCHANGED <<issued, tok, cnt, twin, heap>>
 LightStep ==
   /\ \A w \in Worlds : PostWs[w].live =>
         LET sc == Checks(PostWs[w].dump) IN
         /\ \A k \in DOMAIN sc : Chk("C13", sc[k][1], sc[k][2] \/ PreBroken(w, k))
         /\ Chk("C02", "identifier-location-points-at-another-row",
                (sc[3][2] /\ sc[4][2]) \/ PreBroken(w, 3) \/ PreBroken(w, 4))
-  /\ UNCHANGED <<issued, tok, cnt, twin>>
+  /\ UNCHANGED <<issued, tok, cnt, twin, heap>>
 
 FullStep ==
   /\ CASE E.op = "insert" -> OpInsert
@@ -519,6 +545,7 @@ FullStep ==
   /\ EqChecks
   /\ MirrorChecks
   /\ twin' = TwinNext
+  /\ IF E.op = "panicked" THEN heap' = {} ELSE HeapChecks /\ heap' = HeapNext
 
 Step ==
   /\ l <= NRec
@@ -532,6 +559,7 @@ Init == /\ l = 1
         /\ tok = {}
         /\ cnt = [c \in Counted |-> 0]
         /\ twin = [w \in Worlds |-> NoTwin]
+        /\ heap = {}
 
 Spec == Init /\ [][Step]_vars
 
